@@ -95,6 +95,9 @@ def run(ctx):
     # the end of the counter: with 2^64 - 2 records behind it a direction can seal two more, and never a third
     for (s, dd) in combos:
         scheds.append({"ops": [], "delivered": 2, "err": False, "suite": s, "dir": dd, "plan": "exhaust", "seq_start": "fffffffffffffffe"})
+    # a Write that the transport cuts short with an expired write deadline, then further Writes after the deadline was lifted
+    for (s, dd) in combos:
+        scheds.append({"ops": [], "delivered": 1, "err": False, "suite": s, "dir": dd, "plan": "wtimeout"})
     # both ends draw randomness from a source that returns 3 bytes per Read: handshake and explicit IVs must not care
     for (s, dd) in combos:
         for plan in ("small", "huge"):
@@ -132,6 +135,12 @@ def run(ctx):
             timeouts.append(s)
             continue
         probs = []
+        if s["plan"] == "wtimeout":
+            if not o["bytes_ok"]:
+                ctx.violation("suite %04x %s: the receiver delivered %d bytes that are not the first payload after a record was torn by a write timeout (%s)" % (s["suite"], s["dir"], o["extra_bytes"], o["err_text"]), {"schedule": s, "observed": o})
+            else:
+                ok += 1
+            continue
         if s["plan"] == "exhaust":
             if o["delivered"] > 2:
                 ctx.violation("suite %04x %s: %s" % (s["suite"], s["dir"], o["err_text"]), {"schedule": s, "observed": o})
